@@ -27,6 +27,9 @@
      (za rnd addr obs) (zk rnd #key obs) (zc rnd cidx ctype obs)
        oracle only: a public lookup for round rnd that had to wait for a postCommit finally answered obs
        (the retry itself appears as a plain q.. at the round the Go code moved the lookup to)
+     (zl addr (ok rnd algos status auth ((cidx p h) ...) nres)) | (zl addr (err n))
+       oracle only: lookupLatest (the tracker part of Ledger.LookupAccount): the account at the latest
+       round with the listed resources, nres = number of resource entries it returned in all
      (d dbRound ndeltas ((addr n) ...) ((addr cidx n) ...) ((#key n) ...) ((cidx n) ...)
         ((addr rnd) ...) ((addr cidx rnd) ...) ((#key rnd) ...))
        dump: cachedDBRound, len(deltas), the four modified maps with their reference counts,
@@ -269,6 +272,42 @@ Definition chk_land (c : cst) (space n : nat) (obs : term) : cst :=
   | (None, _) => upd_model c s1 false
   end.
 
+(* lookupLatest: base data (a_extra mod 4 = auth address) and every resource at the latest round *)
+Definition half_count (o : option N) : nat := match o with Some _ => 1 | None => 0 end.
+Definition chk_latest (g : world) (c : cst) (a : addr) (obs : term) : cst :=
+  let h := c_hist c in
+  let lat := List.length h in
+  let w := state_at g h lat in
+  let ok :=
+    match obs with
+    | TL [TS "ok"; rnd; al; st; au; TL res; nres] =>
+        match as_nat rnd, as_N al, as_N st, as_N au, as_nat nres with
+        | Some rnd, Some al, Some st, Some au, Some nres =>
+            let x := ans_acct w a in
+            Nat.eqb rnd lat && N.eqb al (a_algos x) && N.eqb st (a_status x) &&
+            N.eqb au (N.modulo (a_extra x) 4) &&
+            forallb (fun t => match t with
+                              | TL [ci; p; hh] =>
+                                  match as_N ci with
+                                  | Some ci => term_eqb (TL [p; hh]) (TL (res_terms (ans_res w a ci)))
+                                  | None => false
+                                  end
+                              | _ => false
+                              end) res &&
+            (* nothing beyond the listed creatables: the entry count matches *)
+            Nat.eqb nres (fold_left (fun n t => match t with
+                                               | TL [TZ ci; _; _] =>
+                                                   (n + half_count (fst (ans_res w a (Z.to_N ci)))
+                                                      + half_count (snd (ans_res w a (Z.to_N ci))))%nat
+                                               | _ => n
+                                               end) res 0%nat)
+        | _, _, _, _, _ => false
+        end
+    | _ => false
+    end in
+  mkCst (c_st c) (c_hist c) (c_iR c) (c_ind c) (c_iph c) (c_spec c && ok) (c_corr c) (c_bad c)
+        (if ok then S (c_nok c) else c_nok c) (c_ncommit c) (c_nwin c) (c_stalled c) (c_late c).
+
 Definition chk_dump (c : cst) (R nd : nat) (ma mr mk mc la lr lk : list term) : cst :=
   let s := c_st c in
   let same :=
@@ -359,6 +398,8 @@ Definition chk_op (g : world) (c : cst) (t : term) : cst :=
       | Some rnd, Some ci, Some ct => chk_late c rnd obs (spec_cre g (c_hist c) rnd ci ct)
       | _, _, _ => set_bad c
       end
+  | TL [TS "zl"; a; obs] =>
+      match as_N a with Some a => chk_latest g c a obs | None => set_bad c end
   | TL [TS "d"; R; nd; TL ma; TL mr; TL mk; TL mc; TL la; TL lr; TL lk] =>
       match as_nat R, as_nat nd with
       | Some R, Some nd => chk_dump c R nd ma mr mk mc la lr lk
